@@ -29,6 +29,7 @@ struct Operand {
   std::unique_ptr<hll_sketch> sk;
   unsigned lg_k = 0; int type = 0; bool full = false;
   int mode = -1;                      // observed from the operand's own image
+  bool all_at_curmin = false;         // HLL_4 operand with cur_min > 0 and every slot exactly at cur_min (coverage only)
   unsigned cur_min = 0;               // HLL_4 operands in HLL mode: cur_min field of the own image (coverage only)
   unsigned min_reg = 0;               // smallest decoded register (HLL mode; > 0 means every slot was hit) (coverage only)
   bool empty() const { return coupons.empty(); }
@@ -92,6 +93,11 @@ static void classify(Engine& E, const Operand& op, bool rvalue) {
     if (op.type == 0 && op.cur_min > 0 && gm == HLL && !g_reports_empty) count("downsample_from_hll4_operand_with_curmin_gt0_into_hll_gadget");
   }
   if (op.mode == M_HLL && !folded && op.type == 0 && op.cur_min > 0) count("same_k_merge_from_hll4_operand_with_curmin_gt0");
+  if (op.all_at_curmin) {
+    count("offered_hll4_operand_with_all_slots_at_curmin");
+    if (g_reports_empty && !folded) count("hll4_all_slots_at_curmin_copied_into_empty_gadget");
+    if (!g_reports_empty) count("hll4_all_slots_at_curmin_merged_into_nonempty_gadget");
+  }
   if (nf == 1) count("downsample_first_operand");
   if (nf == 2) count("downsample_later");
 }
@@ -227,6 +233,13 @@ void run_case(uint64_t idx, Rng& r) {
     dense_lg_k = static_cast<unsigned>(r.range(5, 9)); lg_max_k = static_cast<unsigned>(r.range(dense_lg_k, 13));
     dense_at = r.below(nops); small_at = (dense_at + 1 + r.below(nops - 1)) % nops;
   }
+  // level scenario: an operand (lg_k 4..7, mostly HLL_4) whose inputs were selected with the reference hash so that every
+  // slot sits at exactly one value v (HLL_4: cur_min = v, all slots at cur_min), presented to a union that copies /
+  // converts it (lg_max_k >= its lg_k) or folds it
+  const bool level_case = !scenario && dense_variant == 0 && r.chance(0.08);
+  const size_t level_at = level_case ? r.below(nops) : nops;
+  unsigned level_lg_k = 0;
+  if (level_case) { level_lg_k = static_cast<unsigned>(r.range(4, 7)); if (r.chance(0.75)) lg_max_k = static_cast<unsigned>(r.range(level_lg_k, 10)); else lg_max_k = static_cast<unsigned>(r.range(4, level_lg_k)); }
   std::vector<Operand> ops(nops);
   // planted pair of inputs whose coupons share the full 26-bit address but differ in value (two distinct coupons in
   // coupon mode, one register in HLL mode): the two halves go to the same or to different operands
@@ -238,7 +251,8 @@ void run_case(uint64_t idx, Rng& r) {
   std::string cdesc = "lg_max_k=" + std::to_string(lg_max_k) + " ops=[";
   for (size_t i = 0; i < nops; ++i) {
     Operand& op = ops[i];
-    op.raw = !(scenario && i < 2) && i != dense_at && i != small_at && r.chance(0.2);
+    op.raw = !(scenario && i < 2) && i != dense_at && i != small_at && i != level_at && r.chance(0.2);
+    std::vector<uint64_t> level_keys;
     uint64_t cnt;
     unsigned dense_target = 0;          // dense operands: feed until every slot holds at least this value (model), then a little more
     if (op.raw) {
@@ -261,7 +275,13 @@ void run_case(uint64_t idx, Rng& r) {
       else if (op.lg_k <= 8 && want >= 48 && r.chance(0.2)) dense = true;
       if (dense) { op.full = r.chance(0.1); op.type = r.chance(0.5) ? 0 : static_cast<int>(1 + r.below(2)); }
       k = 1ULL << op.lg_k; thr = op.lg_k >= 8 ? (3 * (k >> 3)) / 4 : 8;
-      if (dense) {
+      if (i == level_at) {
+        op.lg_k = level_lg_k; op.full = r.chance(0.1); op.type = r.chance(0.7) ? 0 : static_cast<int>(1 + r.below(2));
+        level_keys = level_stream(r, op.lg_k, static_cast<unsigned>(1 + r.below(3)), static_cast<unsigned>(r.chance(0.5) ? 0 : r.below(3)));
+        cnt = level_keys.size(); dense = false;
+        count("level_operands_built");
+      }
+      else if (dense) {
         // n in [~k ln k, 40 k]: every slot hit, HLL_4 cur_min >= 1 (often 2..4)
         const double base_n = static_cast<double>(k) * (std::log(static_cast<double>(k)) + 1.0 + static_cast<double>(r.below(8)));
         cnt = std::min<uint64_t>(40 * k, static_cast<uint64_t>(base_n * (1.0 + r.unit())));
@@ -286,14 +306,15 @@ void run_case(uint64_t idx, Rng& r) {
     size_t below_target = 0;
     if (dense_target) { dregs.assign(size_t(1) << op.lg_k, 0); below_target = dregs.size(); }
     uint64_t ph = cnt, pl = cnt;        // positions of the planted inputs inside this operand (cnt = none)
-    if (plant && cnt >= 2 && !dense_target) {
+    if (plant && cnt >= 2 && !dense_target && level_keys.empty()) {
       if (i == plant_hi_at) ph = r.below(cnt);
       if (i == plant_lo_at) { pl = r.below(cnt); if (pl == ph) pl = (pl + 1) % cnt; }
       if (ph < cnt || pl < cnt) count("planted_same_address_coupon_halves");
       if (ph < cnt && pl < cnt) count("planted_same_address_pair_in_one_operand");
     }
     for (uint64_t j = 0; j < cnt; ++j) {
-      Val v = make_val(cfg, base + j);
+      Val v;
+      if (!level_keys.empty()) { v.kind = V_U64; v.u = level_keys[j]; } else v = make_val(cfg, base + j);
       if (j == ph) { v = Val(); v.kind = V_U64; v.u = plant_pair.x_hi; }
       if (j == pl) { v = Val(); v.kind = V_U64; v.u = plant_pair.x_lo; }
       if (!v.ignored()) {
@@ -316,6 +337,7 @@ void run_case(uint64_t idx, Rng& r) {
         op.cur_min = d.type == 0 ? d.cur_min : 0;
         op.min_reg = d.regs.empty() ? 0 : *std::min_element(d.regs.begin(), d.regs.end());
         if (op.type == 0 && op.cur_min > 0) count("operand_hll4_curmin_gt0");
+        if (op.type == 0 && op.cur_min > 0 && d.num_at_cur_min == (1u << op.lg_k)) { op.all_at_curmin = true; count("operand_hll4_all_slots_exactly_at_curmin"); }
         if (op.type == 0 && op.cur_min > 1) count("operand_hll4_curmin_gt1");
         if (op.min_reg > 0) count("operand_dense_all_slots_hit");
       }
@@ -400,6 +422,7 @@ void run_case(uint64_t idx, Rng& r) {
   }
   count(std::string("lg_max_k_") + (lg_max_k < 8 ? "4_7" : (lg_max_k <= 13 ? "8_13" : "14_21")));
   if (scenario) count("scenario_cases");
+  if (level_case) count("level_scenario_cases");
   if (plant) count("planted_same_address_coupon_pairs");
   if (dense_variant) count("dense_scenario_cases_v" + std::to_string(dense_variant));
   (void)idx;
